@@ -7,6 +7,21 @@ V = os.path.dirname(os.path.dirname(os.path.abspath(__file__)))
 
 # id -> (level, technique, level text, level note, design ref)
 CLAIMS = {
+ "C01": ("other",
+   "guard-set comparison, mark/flag/side discipline, loop-state, counter and must-call analyses on go/ssa of the Cisco planner, merger and parser (packages cisco, asa), table-driven",
+   "Does NOT decide convergence (that needs executing the emitted script on a device model). Decides, on every run, the structural necessary conditions the ASA planner rests on: HasChanges/ShowChanges/ApplyCommands read the change list GetChanges stores; every audited decision of the planner, merger and parser (reuse / edit in place / transfer under a fresh name / delete; where ACL lines are inserted, moved, deleted; object-group equalisation; crypto map pairing by peer) keeps its audited controlling conditions; every store into the marks needed / ready / toDelete, into names and sequence numbers, into the compared text `parsed` and into the configuration-mode variable lies at an audited site; the planner's phases run on every path; flags that choose between incremental change and full replacement are set under their audited conditions; no unaudited state crosses loop iterations; fresh sequence numbers come from a counter advanced after every hand-out; equality predicates are symmetric; the normalisers of device syntax (named ports, host masks, log levels, defaults) work with exactly their audited constants; moves are one joined line; delete/insert lists are filled in one ascending pass.",
+   "Trusted: go/ssa, call graph; the audited rows of the tables are the intended decisions (each carries its reason). Not decided: Myers diff results, line-number arithmetic as computed values, equivalence of the final device configuration.",
+   "DESIGN.md section 8.8"),
+ "C02": ("other",
+   "guard-set comparison, mark/flag/side discipline, loop-state, counter and must-call analyses on go/ssa of the Cisco planner, merger and parser (packages cisco, ios), table-driven; constant agreement of the IOS numbering",
+   "Does NOT decide convergence (needs a device model). Decides the same structural necessary conditions as C01 for IOS (change-list agreement; audited decisions incl. permit/deny block marking, insideBlock, VRF alignment and interface checks; mark, flag and mode-variable discipline; phases on every path; loop state incl. the sticky all-lines-so-far flags; block numbers from a running counter; symmetric predicates; normaliser constants incl. sequence-number stripping) and additionally that the resequence step, the multipliers of inserted and deleted line numbers and the too-many-lines bound are one integer, and that moves are one joined delete+add line.",
+   "Trusted: go/ssa, call graph; the audited rows of the tables. Not decided: the arithmetic before*10000+i+1 on run-time values, the filtering behaviour of the resulting ACLs.",
+   "DESIGN.md section 8.8"),
+ "C10": ("other",
+   "call-graph reachability (VTA) from every T.GetChanges to file/environment/status readers; constant inspection of the PAN-OS configuration request; guard-set comparison and must-call analysis on go/ssa for the name generators, left-over reuse and clean-up phases",
+   "Does NOT decide that a resumed approve converges (needs the device state after every prefix of a script, i.e. execution on a device model). Decides the mechanisms the property names: every planner decision is recomputed from the two configurations only (nothing reachable from GetChanges reads files, environment or earlier status); PAN-OS reads the candidate configuration (action=get), so uncommitted edits of an interrupted run are seen; fresh names/ids are tested against the names on the device, identical left-over groups are taken over only when not already needed, deletion candidates are the not-needed objects with generated names, each under its audited conditions; the clean-up phases (removeUnusedServices/Groups, removeUnneededObjects, deleteUnused) run on every path of the planner.",
+   "Trusted: go/ssa, VTA call graph; the audited rows of tables/guards.tsv and tables/phases.tsv.",
+   "DESIGN.md section 8.8"),
  "C06": ("other",
    "call-graph reachability with gated call sites removed (VTA), dominance on go/ssa, inter-procedural command-provenance evaluation against a read-only allow-list",
    "Structural clause set of the property decided on every run from /repo's source: every call path to an ApplyCommands implementation passes the GetErrUnmanaged gate; the gate returns what the marker checks recorded; hostname/marker/HA checks dominate every successful load; the optional banner is nil-safe; every command that can be sent outside the apply region is allow-listed read-only. 'other' rather than 'proof' because one genuine defect (Linux marker finding never reaches the gate) is pinned by the unedited test-suite and recorded as a known finding.",
@@ -94,11 +109,7 @@ CLAIMS = {
    "DESIGN.md section 4 C20, E5"),
 }
 
-NOT_APPLICABLE = {
- "C01": "Convergence of the ASA diff is a statement about values (Myers diff, line-number arithmetic, generated names) computed on unbounded inputs; it needs executing the script on a device model. No structural necessary condition exists that a behaviour-breaking edit would violate; static analysis cannot decide it.",
- "C02": "Same as C01 for IOS: before*10000+i+1 arithmetic and permit/deny block splitting are runtime-value properties; needs execution on a device model.",
- "C10": "Quantifies over the device state reached by every prefix of an emitted script; obtaining that state means executing the script on a device model, which is outside static analysis.",
-}
+NOT_APPLICABLE = {}
 
 def main():
     props = [json.loads(l)["id"] for l in open(os.path.join(V, "properties.jsonl"))]
